@@ -13,13 +13,13 @@ ID = "C12"
 LEVEL = "exploration"
 DESIGN_REF = "DESIGN.md §3 C12"
 RULE = (
-    "Hypothesis worlds (multigraphs <= 5 vertices / <= 8 links of 6 classes, a universe with a law set carrying an "
+    "Hypothesis worlds (multigraphs <= 5 vertices / <= 8 links of 6-11 classes, vertex classes incl. one with neighbor caching switched on for the subclass only, a universe with a law set carrying an "
     "edge whitelist) x caching on/off.  For each world the complete matrix (exchange point x mutation) is "
     "enumerated.  Exchange points OUT: Vertex.links, Link.vertices, Universe.vertices, BaseObject.universes, "
     "UniverseLaws.edge_whitelist (outer and inner mapping), neighbors() (cache-filling call right after an invalidation, and cache hit), find_links(), "
     "bft / dft_recursive / dft_iterative results, unlink(destroy=False) result.  Exchange points IN (with container sizes 0, 1 and more): Vertex(links=, "
     "universes=, attributes=), Link subclass(vertices=), Universe(vertices=), UniverseLaws(edge_whitelist=) outer "
-    "and inner dict, load_adj_dict input and rows, load_adj_matrix matrix, rows and side array.  Mutations: "
+    "and inner dict (also handed over as a MappingProxyType view of a dict the caller keeps), load_adj_dict input and rows, load_adj_matrix matrix, rows and side array.  Mutations: "
     "append, extend, insert, remove/pop, clear, sort, reverse, item assignment/deletion, add/discard/update as the "
     "type permits (TypeError/AttributeError = immutable, accepted).  After every mutation the structural snapshot "
     "and the full query battery must equal their values before it.  Non-trivial = the world has >= 2 links and at "
@@ -44,7 +44,7 @@ def budget(tier):
 def strategy(tier):
     return st.builds(
         lambda g, uni, cache, a, b: {"g": g, "uni": sorted({x % g["nv"] for x in uni}) or [0], "cache": cache, "pair": [a % g["nv"], b % g["nv"]]},
-        graphs.graph_descs(max_v=5, max_e=8, min_v=2, min_e=1),
+        st.one_of(graphs.graph_descs(max_v=5, max_e=8, min_v=2, min_e=1), graphs.graph_descs(max_v=5, max_e=8, min_v=2, min_e=1, wide=True, classes=11)),
         st.lists(st.integers(0, 4), min_size=1, max_size=5),
         st.booleans(),
         st.integers(0, 4),
@@ -276,8 +276,12 @@ def _in_points(W, case, junk, verify, classes):
         return [members], lambda: vi(u.vertices)
 
     def mk_laws():
+        import types
+
         inner = {Vertex: DirectedEdge}
-        outer = {Vertex: inner, Universe: {Vertex: DirectedEdge}}
+        # the inner mapping is handed over as a dict or as a read-only VIEW of a dict the caller keeps
+        given = types.MappingProxyType(inner) if (W.a + W.b) % 2 else inner
+        outer = {Vertex: given, Universe: {Vertex: DirectedEdge}}
         laws = UniverseLaws(edge_whitelist=outer)
         return [outer, inner], lambda: sorted((k.__name__, sorted((a.__name__, b.__name__) for a, b in v.items())) for k, v in laws.edge_whitelist.items())
 
